@@ -239,8 +239,31 @@ def oracle_c15(dump, max_inputs=5):
     if len(ins) > max_inputs:
         return None
     totals = {vec: ref_eval(dump, dict(zip(ins, vec))) for vec in itertools.product([False, True], repeat=len(ins))}
+    outs = list(c._outputs)
+    reused = {}           # ONE dict object that the caller keeps and updates between calls
     for combo in itertools.product([False, True, None], repeat=len(ins)):
         asg = {i: (Undefined if v is None else v) for i, v in zip(ins, combo)}
+        # the caller's dictionary is not modified by an evaluation, so it can be updated and passed again
+        reused.clear()
+        reused.update(asg)
+        for name, fn in (('evaluate_circuit', c.evaluate_circuit), ('evaluate_full_circuit', c.evaluate_full_circuit),
+                         ('evaluate_circuit_outputs', c.evaluate_circuit_outputs)):
+            fn(reused)
+            if reused != asg or list(reused) != list(asg):
+                return f'{name}: modified the assignment dictionary it was given ({asg} became {reused})'
+        if None not in combo:
+            ref = totals[tuple(combo)]
+            co = c.evaluate_circuit_outputs(dict(asg))
+            for o in outs:
+                if co.get(o) is not ref[o]:
+                    return f'evaluate_circuit_outputs: total assignment {asg} gives {co.get(o)!r} at output {o}, not {ref[o]}'
+            ec = c.evaluate_circuit(dict(asg))
+            for o in outs:
+                if ec.get(o) is not ref[o]:
+                    return f'evaluate_circuit: total assignment {asg} gives {ec.get(o)!r} at output {o}, not {ref[o]}'
+            ev = c.evaluate([bool(v) for v in combo])
+            if ev != [ref[o] for o in outs]:
+                return f'evaluate: total assignment {asg} gives {ev}'
         for name, fn in (('evaluate_full_circuit', lambda: c.evaluate_full_circuit(dict(asg))),
                          ('evaluate_circuit', lambda: c.evaluate_circuit(dict(asg)))):
             res = fn()
